@@ -31,6 +31,13 @@ var c19InnerWrappers = []struct{ Name, Tmpl string }{
 	{"labels-other", "(labels ((c19-wl () " + c19Mark + ")) (c19-wl))"},
 	{"handler-bind", "(handler-bind () " + c19Mark + ")"},
 	{"newline-indent", "(progn\n      " + c19Mark + ")"},
+	// the bracket spelling of binding entries (docs/lang.md) and of cond clauses
+	{"let-other-init-brackets", "(let ([c19-w " + c19Mark + "]) c19-w)"},
+	{"let*-other-init-brackets", "(let* ([c19-v 1] [c19-w " + c19Mark + "]) c19-w)"},
+	{"let-other-brackets", "(let ([c19-w 1]) " + c19Mark + ")"},
+	{"flet-other-brackets", "(flet ([c19-wf () " + c19Mark + "]) (c19-wf))"},
+	{"labels-other-brackets", "(labels ([c19-wl () " + c19Mark + "]) (c19-wl))"},
+	{"cond-brackets", "(cond [true " + c19Mark + "] [else 0])"},
 }
 
 // inert argument expressions: evaluating them cannot fail and calls none of
@@ -80,12 +87,18 @@ var c19UserNames = []string{"f", "c19-fn", "add2", "my-func", "g1", "do-it!", "x
 
 func c19RunRandom(w *fw.W, idx int) {
 	r := w.RNG(idx, "main")
-	switch r.Intn(12) {
+	switch r.Intn(13) {
 	case 0, 1, 2, 3, 4: // shadowing contexts
 		cases := c19ShadowCases()
 		sc := cases[r.Intn(len(cases))]
 		wr := c19RandWrap(r, true)
-		c19RunShadowCase(w, sc, wr, r.Intn(c19ShadowMaxK+1))
+		k := r.Intn(c19ShadowMaxK + 1)
+		// half of the shapes that have binding entries: the bracket spelling
+		if r.Chance(1, 2) && strings.Contains(c19Shapes[sc.Shape].Build(sc.Target, sc.Shadow), c19EO) {
+			wr.Brackets = true
+			wr.Names = append(wr.Names, "bracket-entries")
+		}
+		c19RunShadowCase(w, sc, wr, k)
 		w.Count("sampled_shadow_cases", 1)
 	case 5, 6, 7: // defun signatures
 		c19RandomUser(w, r)
@@ -93,9 +106,12 @@ func c19RunRandom(w *fw.W, idx int) {
 	case 8, 9: // registry names under wrappers
 		c19RandomRegistry(w, r)
 		w.Count("sampled_registry_cases", 1)
-	default: // a name defined more than once
+	case 10, 11: // a name defined more than once
 		c19RandomRedef(w, r)
 		w.Count("sampled_redefined_cases", 1)
+	default: // any core name or defun at any syntactic position
+		c19RandomPosition(w, r)
+		w.Count("sampled_position_cases", 1)
 	}
 }
 
